@@ -2,7 +2,7 @@ import os
 META = dict(
     engine='cosched',
     technique='stateless model checking: preemption-bounded exhaustive schedule enumeration (CHESS) of the real data repository (datarepo.c over the real hash table and thread mempools)',
-    level_text='Every schedule with <= b preemptions (b=2 quick, 3 thorough) of 2-3 thread creator/consumer/observer scripts (1-3 creators of one key, uses before and after the limit announcement, two keys in one bucket, re-creation after reclamation) over the real data_repo_t is executed; a held entry must stay findable, be the same object and keep its data; an entry with announced-but-missing uses must be findable; at the end every entry is absent from the table and back in its owning mempool exactly once.',
+    level_text='Every schedule with <= b preemptions (two-thread scripts: b=2 quick / 3 thorough; three-thread scripts: b=1 quick / 2 thorough) of creator/consumer/observer scripts (1-3 creators of one key, uses before and after the limit announcement, observers; thorough also: two keys in one bucket, re-creation after reclamation) over the real data_repo_t is executed; a held entry must stay findable, be the same object and keep its data; an entry with announced-but-missing uses must be findable; at the end every entry is absent from the table and back in its owning mempool exactly once.',
     level_note='Sequential consistency at instrumented accesses (bucket array, entry headers, mempool LIFO heads are scheduling points; the table rwlock is not); <= 3 threads, <= 5 operations per thread; scripts follow the runtime protocol (a use is activated by a creator that still holds the entry).',
 )
 RULE = ("cosched: every schedule of each 2-3 thread creator/consumer/observer script over the real data repository with at most b "
@@ -22,7 +22,8 @@ def _run_each(ctx, exe, bound, budget, env, label, cost):
     t_end = time.time() + budget
     for n in names:
         left = max(3, int(t_end - time.time()))
-        args = ['--bound', str(bound), '--scenario', n, '--jobs', str(vlib.NJOBS), '--outdir', vlib.OUT, '--deadline', str(left)]
+        jobs = max(2, min(vlib.NJOBS, cost.get(n, 10**9) // 60))   # do not fork 16 workers for a few dozen schedules
+        args = ['--bound', str(bound), '--scenario', n, '--jobs', str(jobs), '--outdir', vlib.OUT, '--deadline', str(left)]
         ctx.run_engine(exe, args, label='%s.%s' % (label, n), timeout=left + 600, env=env)
 # measured number of schedules in the quick tier, used only to order the scenarios
 COST = dict(creator_consumer_observer=502, creator_vs_consumer=528, three_creators=538, creator_two_uses=580, two_creators_one_consumer=738,
